@@ -171,9 +171,13 @@ func c13FirstDiff(a, b any, path string) string {
 		for _, k := range sorted {
 			xv, xok := x[k]
 			yv, yok := y[k]
-			sub := path + "." + k
+			kc := k
+			if !c13KnownKeys[k] && k != "verif_sentinel" {
+				kc = "<unknown-key>"
+			}
+			sub := path + "." + kc
 			if path == "" {
-				sub = k
+				sub = kc
 			}
 			if xok != yok {
 				return sub
@@ -229,7 +233,11 @@ func (p c13Path) Class() string {
 			if i > 0 {
 				sb.WriteByte('.')
 			}
-			fmt.Fprintf(&sb, "%v", x)
+			if ks, isStr := x.(string); isStr && (c13KnownKeys[ks] || ks == "verif_sentinel") {
+				sb.WriteString(ks)
+			} else {
+				sb.WriteString("<unknown-key>")
+			}
 		}
 	}
 	if sb.Len() == 0 {
@@ -617,6 +625,9 @@ func c13LoadSeeds(rep *verifkit.Report, mig *configmigrate.Migrator, dataDir str
 			Body: []byte(fmt.Sprintf("schema_version: %d\ndns: {}\ndhcp: {}\nclients: %s\nfilters: []\nstatistics: {}\nquerylog: {}\nhttp: {}\nfiltering: {}\ntls: {}\nusers: []\n",
 				k, map[bool]string{true: "[]", false: "{}"}[k < 14]))})
 	}
+	for _, sd := range seeds {
+		c13CollectKeys(c13DecodeSeed(sd))
+	}
 	for _, r := range c13RawDocs {
 		seeds = append(seeds, c13Seed{Name: "raw:" + r.name, Body: []byte(r.text), Raw: true})
 	}
@@ -888,6 +899,10 @@ type c13Touch struct {
 	keys []string
 }
 
+// c13TouchesCover is the last step c13Touches describes.  With a newer schema
+// the table has to be extended first; until then the run is inconclusive.
+const c13TouchesCover = 29
+
 var c13Touches = []c13Touch{
 	{2, "", []string{"coredns", "dns"}},
 	{3, "dns", []string{"bootstrap_dns"}},
@@ -949,6 +964,24 @@ func c13Concerned(from int, sect string) (keys map[string]bool) {
 // (the section name is then among the concerned top-level keys).
 var c13MapSections = []string{"dns", "dhcp", "statistics", "querylog", "http", "filtering", "os", "log", "tls"}
 
+// c13KnownKeys holds every mapping key that occurs in a seed document; it is
+// filled by c13LoadSeeds before any case is evaluated and read-only afterwards.
+var c13KnownKeys = map[string]bool{}
+
+func c13CollectKeys(v any) {
+	switch c := v.(type) {
+	case map[string]any:
+		for k, e := range c {
+			c13KnownKeys[k] = true
+			c13CollectKeys(e)
+		}
+	case []any:
+		for _, e := range c {
+			c13CollectKeys(e)
+		}
+	}
+}
+
 type c13Loss struct {
 	where string // generalised location, used in the key
 	what  string
@@ -970,6 +1003,9 @@ func c13CheckPreserved(from int, in, out map[string]any) (losses []c13Loss, comp
 	class := func(sect, k string) string {
 		if k == "verif_sentinel" {
 			return sect + ".<sentinel>"
+		} else if !c13KnownKeys[k] {
+			// Keys invented by a mutation: one class, whatever the name.
+			return sect + ".<unknown-key>"
 		}
 		return sect + "." + k
 	}
@@ -1020,10 +1056,7 @@ func c13CheckPreserved(from int, in, out map[string]any) (losses []c13Loss, comp
 			continue
 		}
 		bv, bok := out[k]
-		w := "<top>." + k
-		if k == "verif_sentinel" {
-			w = "<top>.<sentinel>"
-		}
+		w := class("<top>", k)
 		cmp(w, av, bv, bok)
 	}
 	// Mapping sections.
@@ -1302,45 +1335,101 @@ func c13Eval(mig *configmigrate.Migrator, c *c13Case) (res *c13Result) {
 		sort.Strings(ks)
 		return strings.Join(ks, "+")
 	}
-	// reportPanic minimises the case to a single mutation if one suffices.
-	reportPanic := func(o c13Out, phase string, target int) {
+	// reportPanic derives the class of the violation: the mutations are first
+	// reduced to a minimal set that still panics in the same step; of that
+	// set, only the triggers are named in the key (a mutation is an enabler,
+	// not a trigger, if without it the document is merely rejected by an
+	// earlier step).  rerun repeats the failing phase on another document.
+	reportPanic := func(o c13Out, phase string, target int, rerun func(b []byte) c13Out) {
 		res.events["panics"]++
 		cls := mutClass()
-		if len(c.Muts) > 1 && c.SeedBody != nil {
+		build := func(set []c13Mut) []byte {
+			var root map[string]any
+			if yaml.Unmarshal(c.SeedBody, &root) != nil || root == nil {
+				return nil
+			}
 			for _, m := range c.Muts {
 				if m.Kind == "stamp" {
-					continue
-				}
-				var root map[string]any
-				if yaml.Unmarshal(c.SeedBody, &root) != nil || root == nil {
-					break
-				}
-				okAll := true
-				for _, s := range c.Muts {
-					if s.Kind == "stamp" {
-						okAll = s.apply(root) && okAll
-					}
-				}
-				if !m.apply(root) {
-					continue
-				}
-				if c.Sentinels {
-					c13InjectSentinels(root)
-				}
-				b, err := yaml.Marshal(root)
-				if err != nil {
-					continue
-				}
-				o2 := c13Run(mig, b, uint(c13Last))
-				if o2.Panicked && o2.Step == o.Step {
-					cls = m.Kind + ":" + m.Path.Class()
-					break
+					m.apply(root)
 				}
 			}
+			for _, m := range set {
+				m.apply(root)
+			}
+			if c.Sentinels {
+				c13InjectSentinels(root)
+			}
+			b, err := yaml.Marshal(root)
+			if err != nil {
+				return nil
+			}
+			return b
+		}
+		var set []c13Mut
+		for _, m := range c.Muts {
+			if m.Kind != "stamp" {
+				set = append(set, m)
+			}
+		}
+		without := func(l []c13Mut, i int) []c13Mut {
+			return append(append([]c13Mut{}, l[:i]...), l[i+1:]...)
+		}
+		if len(set) > 1 && c.SeedBody != nil {
+			for i := 0; i < len(set) && len(set) > 1; {
+				b := build(without(set, i))
+				if b != nil {
+					if o2 := rerun(b); o2.Panicked && o2.Step == o.Step {
+						set = without(set, i)
+						continue
+					}
+				}
+				i++
+			}
+			trig := set
+			if len(set) > 1 {
+				trig = nil
+				stepNo, _ := strconv.Atoi(strings.TrimPrefix(o.Step, "migrateTo"))
+				for i, m := range set {
+					enabler := false
+					if b := build(without(set, i)); b != nil {
+						o2 := rerun(b)
+						if es := c13ErrStep(o2.Err); !o2.Panicked && strings.HasPrefix(es, "step") {
+							n, _ := strconv.Atoi(strings.TrimPrefix(es, "step"))
+							enabler = stepNo > 0 && n < stepNo
+						}
+					}
+					if !enabler {
+						trig = append(trig, m)
+					}
+				}
+				if len(trig) == 0 {
+					trig = set
+				}
+			}
+			var ks []string
+			for _, m := range trig {
+				ks = append(ks, m.Kind+":"+m.Path.Class())
+			}
+			sort.Strings(ks)
+			cls = strings.Join(ks, "+")
 		}
 		violate("panic:"+o.Step+":"+c13PanicClass(o.PanicVal)+":"+cls,
 			fmt.Sprintf("Migrate panicked in %s: %s", o.Step, o.PanicVal),
 			map[string]any{"phase": phase, "target": target, "panic": o.PanicVal, "stack": c13TrimStack(o.Stack)})
+	}
+	runTo := func(target int) func(b []byte) c13Out {
+		return func(b []byte) c13Out { return c13Run(mig, b, uint(target)) }
+	}
+	// runVia repeats "run to k, then run the result to the end"; k = current
+	// repeats the re-run on the upgraded document.
+	runVia := func(k int) func(b []byte) c13Out {
+		return func(b []byte) c13Out {
+			a := c13Run(mig, b, uint(k))
+			if a.Panicked || a.Err != nil {
+				return c13Out{Err: a.Err}
+			}
+			return c13Run(mig, a.Body, uint(c13Last))
+		}
 	}
 
 	var doc map[string]any
@@ -1375,7 +1464,7 @@ func c13Eval(mig *configmigrate.Migrator, c *c13Case) (res *c13Result) {
 	one := c13Run(mig, body, uint(c13Last))
 	res.events["migrate_calls"]++
 	if one.Panicked {
-		reportPanic(one, "one-run", c13Last)
+		reportPanic(one, "one-run", c13Last, runTo(c13Last))
 		return res
 	}
 	var oneDoc map[string]any
@@ -1430,7 +1519,7 @@ func c13Eval(mig *configmigrate.Migrator, c *c13Case) (res *c13Result) {
 		res.events["results_rerun"]++
 		switch {
 		case again.Panicked:
-			reportPanic(again, "re-run on the upgraded document", c13Last)
+			reportPanic(again, "re-run on the upgraded document", c13Last, runVia(c13Last))
 		case again.Err != nil:
 			violate("current:rerun-error:"+c13ErrStep(again.Err), "upgrading the upgraded (current) document fails: "+again.Err.Error(),
 				map[string]any{"upgraded_document": c13BodyText(one.Body)})
@@ -1439,7 +1528,7 @@ func c13Eval(mig *configmigrate.Migrator, c *c13Case) (res *c13Result) {
 				map[string]any{"upgraded_document": c13BodyText(one.Body), "second_result": c13BodyText(again.Body)})
 		}
 		// Settings no pending step concerns.
-		if from >= 0 {
+		if from >= 0 && c13Last == c13TouchesCover {
 			losses, n := c13CheckPreserved(from, doc, oneDoc)
 			res.events["unconcerned_settings_compared"] += n
 			if c.Sentinels {
@@ -1473,7 +1562,7 @@ func c13Eval(mig *configmigrate.Migrator, c *c13Case) (res *c13Result) {
 		a := c13Run(mig, body, uint(k))
 		res.events["migrate_calls"]++
 		if a.Panicked {
-			reportPanic(a, "partial run", k)
+			reportPanic(a, "partial run", k, runTo(k))
 			continue
 		}
 		var final c13Out
@@ -1501,7 +1590,7 @@ func c13Eval(mig *configmigrate.Migrator, c *c13Case) (res *c13Result) {
 			final = c13Run(mig, a.Body, uint(c13Last))
 			res.events["migrate_calls"]++
 			if final.Panicked {
-				reportPanic(final, fmt.Sprintf("second run after a partial run to %d", k), c13Last)
+				reportPanic(final, fmt.Sprintf("second run after a partial run to %d", k), c13Last, runVia(k))
 				continue
 			}
 			splitErr = final.Err
@@ -1614,6 +1703,9 @@ func TestVerifC13(t *testing.T) {
 	rep.Assume("bcrypt hashes written by step 5 are salted; they are replaced by a token before one-run and split-run results are compared")
 	rep.Assume("the list of settings each step concerns (c13Touches) was harvested by reading v1.go...v29.go")
 
+	if c13Last != c13TouchesCover {
+		rep.Inconcl(fmt.Sprintf("the table of settings each step concerns covers steps up to %d, the current schema version is %d", c13TouchesCover, c13Last))
+	}
 	work := t.TempDir()
 	dataDir := filepath.Join(work, "data")
 	mig := configmigrate.New(&configmigrate.Config{WorkingDir: work, DataDir: dataDir})
